@@ -178,70 +178,75 @@ def r10b(ctx):
                'sample_alpha_none modifies state', where(sn), nontrivial=False)
 
 
+def sampler_worlds(ctx, ci: ClassInfo, fn: FunctionInfo, depth: int = 0):
+    """For a sampler method: list of (assumptions, kind) where kind describes the coefficients
+    left in theta_alpha at the end of the path: 'onehot', 'soft', 'gumbel' (one-hot iff the
+    hard flag), or 'untouched'.  Calls of another sampler of the same object are followed."""
+    repo = ctx.repo
+    out = []
+    for p in returning(paths(repo, fn)):
+        kind = 'untouched'
+        subs = [([], 'untouched')]
+        for i, e in enumerate(p.events):
+            if e.kind == 'setattr' and e.data[0] == SELF and e.data[1] == 'theta_alpha':
+                v = resolve_stores(p, i, e.data[2])
+                if onehot_source(repo, v) is not None:
+                    kind = 'onehot'
+                elif is_call(v, 'torch.nn.functional.gumbel_softmax'):
+                    h = arg(v, 2, 'hard')
+                    kind = 'gumbel' if h == ('attr', SELF, 'hard_softmax') else (
+                        'onehot' if h == ('const', True) else 'soft')
+                elif is_prob(v) is not None:
+                    kind = 'soft'
+                else:
+                    kind = 'other'
+                subs = [([], kind)]
+            elif e.kind == 'call' and method_call(e.data[0]) and \
+                    method_call(e.data[0])[0] == SELF and \
+                    method_call(e.data[0])[1].startswith('sample_alpha') and depth < 2:
+                tgt = repo.find_method(ci, method_call(e.data[0])[1])
+                if tgt is not None and tgt is not fn:
+                    subs = sampler_worlds(ctx, ci, tgt, depth + 1)
+        for a2, k2 in subs:
+            out.append((list(p.assumptions) + list(a2), k2))
+    return out
+
+
 def r10c(ctx):
+    """Truth table over (hard_softmax, training) of what each sampler leaves in theta_alpha:
+    softmax sampler: one-hot iff hard or eval;  Gumbel sampler: in training one-hot iff hard,
+    in eval one-hot always (the noise-free arg-max)."""
     repo = ctx.repo
     hard = ('attr', SELF, 'hard_softmax')
     training = ('attr', SELF, 'training')
     for ci in sampler_classes(ctx):
-        sm = ci.methods.get('sample_alpha_sm')
-        gs = ci.methods.get('sample_alpha_gs')
-        if sm is None or gs is None:
-            raise AnalysisError(f'{ci.name}: samplers not found')
-        # enumerate the four (hard, training) worlds and see in which the one-hot store happens
-        table = {}
-        for p in returning(paths(repo, sm)):
-            onehot = False
-            for i, e in enumerate(p.events):
-                if e.kind == 'setattr' and e.data[0] == SELF and e.data[1] == 'theta_alpha':
-                    if onehot_source(repo, resolve_stores(p, i, e.data[2])) is not None:
-                        onehot = True
-            known = {a: v for a, v in p.assumptions}
-            for h in (True, False):
-                for tr in (True, False):
-                    if consistent(known, hard, training, h, tr):
-                        table.setdefault((h, tr), set()).add(onehot)
-        if len(table) != 4:
-            raise AnalysisError(f'{ci.name}.sample_alpha_sm: could not enumerate the four '
-                                f'(hard, training) worlds')
-        for (h, tr), vals in sorted(table.items()):
-            want = h or not tr
-            ok = vals == {want}
-            ctx.ob('R10c', f'{ci.name}.sample_alpha_sm one-hot when hard={h}, training={tr}', ok,
-                   f'one-hot={want}' if ok else
-                   f'with hard_softmax={h} and training={tr} the sampled coefficients are '
-                   f'{"a one-hot" if True in vals else "a soft mixture"} (expected '
-                   f'{"one-hot" if want else "soft"}): the model evaluates something else than '
-                   f'the arg-max that summary() reports and export() materialises', where(sm))
-        # gumbel: falls back to sm when not training
-        okg = True
-        msg = ''
-        for p in returning(paths(repo, gs)):
-            tr = [v for a, v in p.assumptions if a == training]
-            calls_sm = any(method_call(e.data[0]) and method_call(e.data[0])[0] == SELF and
-                           method_call(e.data[0])[1] == 'sample_alpha_sm' for e in p.calls())
-            stores = [e for e in p.events if e.kind == 'setattr' and e.data[1] == 'theta_alpha']
-            if tr == [False] and not (calls_sm and not stores):
-                okg = False
-                msg = 'eval-mode path does not delegate to sample_alpha_sm'
-            if tr == [True] and not stores:
-                okg = False
-                msg = 'training path does not sample'
-            if not tr:
-                okg = False
-                msg = 'sampler does not test self.training'
-        ctx.ob('R10c', f'{ci.name}.sample_alpha_gs eval fallback', okg,
-               'Gumbel noise only in training; eval falls back to the softmax sampler' if okg
-               else f'{msg}', where(gs))
-        # hard flag handed to gumbel_softmax
-        for p in returning(paths(repo, gs)):
-            for e in p.events:
-                if e.kind == 'setattr' and e.data[1] == 'theta_alpha' and \
-                        is_call(e.data[2], 'torch.nn.functional.gumbel_softmax'):
-                    h = arg(e.data[2], 2, 'hard')
-                    ctx.ob('R10c', f'{ci.name}.sample_alpha_gs hard flag', h == hard,
-                           'hard=self.hard_softmax' if h == hard else
-                           f'gumbel_softmax(hard={short(h) if h else None})', where(gs, e.node),
-                           nontrivial=False)
+        for sname in ('sample_alpha_sm', 'sample_alpha_gs'):
+            fn = ci.methods.get(sname)
+            if fn is None:
+                raise AnalysisError(f'{ci.name}.{sname} not found')
+            worlds = sampler_worlds(ctx, ci, fn)
+            table: Dict[Tuple[bool, bool], set] = {}
+            for assum, kind in worlds:
+                known = {a: v for a, v in assum}
+                for h in (True, False):
+                    for tr in (True, False):
+                        if consistent(known, hard, training, h, tr):
+                            k = kind
+                            if kind == 'gumbel':
+                                k = 'onehot' if h else 'soft'
+                            table.setdefault((h, tr), set()).add(k)
+            if len(table) != 4:
+                raise AnalysisError(f'{ci.name}.{sname}: could not enumerate the four '
+                                    f'(hard, training) worlds')
+            for (h, tr), kinds in sorted(table.items()):
+                want = 'onehot' if (h or not tr) else 'soft'
+                ok = kinds == {want}
+                ctx.ob('R10c', f'{ci.name}.{sname} one-hot when hard={h}, training={tr}', ok,
+                       f'coefficients are {want}' if ok else
+                       f'with hard_softmax={h} and training={tr} {sname} leaves '
+                       f'{"/".join(sorted(kinds))} coefficients (expected {want}): the model '
+                       f'evaluates something else than the arg-max that summary() reports and '
+                       f'export() materialises', where(fn))
 
 
 def consistent(known: Dict[Term, bool], hard: Term, training: Term, h: bool, tr: bool) -> bool:
@@ -268,10 +273,62 @@ def consistent(known: Dict[Term, bool], hard: Term, training: Term, h: bool, tr:
     return True
 
 
+def r10d(ctx):
+    """The sampler options reach every quantizer / combiner in their own slot: a layer that
+    forwards update_softmax_options must not exchange hard / gumbel / ... on the way."""
+    from .c11 import forwarding_ok
+    repo = ctx.repo
+    n = 0
+    for fn in repo.all_functions():
+        if fn.name != 'update_softmax_options' or fn.cls is None:
+            continue
+        seen = set()
+        for p in paths(repo, fn):
+            for e in p.calls():
+                t = e.data[0]
+                mc = method_call(t)
+                if mc and mc[1] == 'update_softmax_options' and show(t) not in seen:
+                    seen.add(show(t))
+                    n += 1
+                    ok, why = forwarding_ok(ctx, fn, t)
+                    ctx.ob('R10d', f'{fn.cls.name}.update_softmax_options -> {short(mc[0], 40)}',
+                           ok, 'options forwarded slot by slot' if ok else
+                           f'{why}: the quantizer is configured with another option than the one '
+                           f'the user set, so what is sampled differs from what summary()/export() '
+                           f'assume', where(fn, e.node))
+    # constructor-originated calls: the constructor argument bound to slot k is named after it
+    for fn in repo.all_functions():
+        if fn.name != '__init__' or fn.cls is None:
+            continue
+        for p in returning(paths(repo, fn)):
+            for e in p.calls():
+                t = e.data[0]
+                mc = method_call(t)
+                if not (mc and mc[1] == 'update_softmax_options' and mc[0] == SELF):
+                    continue
+                target = repo.find_method(fn.cls, 'update_softmax_options')
+                if target is None:
+                    continue
+                ps = target.params[1:]
+                bad = []
+                for i, a in enumerate(mc[2]):
+                    if a[0] == 'param' and i < len(ps) and ps[i] not in a[1]:
+                        bad.append(f'slot {ps[i]} receives constructor argument {a[1]}')
+                for k, a in mc[3]:
+                    if a[0] == 'param' and k not in a[1]:
+                        bad.append(f'slot {k} receives constructor argument {a[1]}')
+                n += 1
+                ctx.ob('R10d', f'{fn.cls.name}.__init__ -> update_softmax_options', not bad,
+                       'constructor options bound to the slots of the same name' if not bad else
+                       '; '.join(bad), where(fn, e.node))
+    ctx.floor('R10d', 'option forwarding calls', n, 8)
+
+
 def run(ctx):
     r10a(ctx)
     r10b(ctx)
     r10c(ctx)
+    r10d(ctx)
     ctx.assume('temperature > 0 (division by it and softmax along dim 0 preserve the arg-max); no '
                'ties among coefficients')
     ctx.assume('F.softmax / F.gumbel_softmax along dim 0 return non-negative vectors summing to '
